@@ -1,7 +1,7 @@
 CONSTANTS
-  NReq = 24
-  NOrig = 9
-  MaxDial = 24
+  NReq = 28
+  NOrig = 11
+  MaxDial = 28
   MaxTick = 60
   AsBuilt = {}
   Caps = {TRUE, FALSE}
